@@ -413,6 +413,15 @@ func typeUnder(t types.Type) types.Type {
 	return t.Underlying()
 }
 
+// nameElt states (outside quantifiers) that the element location of slice b at index i has its elt name too, so
+// that quantified clauses triggered on elt terms apply to a byte a ground clause mentions.
+func (f *fnState) nameElt(b, i string) {
+	if f.quant > 0 || strings.Contains(i, "q_") {
+		return
+	}
+	f.fact(fmt.Sprintf("(= (elt (s-loc %s) %s) %s)", b, i, locOff(fmt.Sprintf("(s-loc %s)", b), i)))
+}
+
 func (f *fnState) specIdent(name string, c *specCtx) SV {
 	f.invLookup = c.invLoop
 	defer func() { f.invLookup = nil }()
@@ -683,6 +692,7 @@ func (f *fnState) specCall(x *spec.Call, c *specCtx) SV {
 			f.quantElts = append(f.quantElts, et)
 			return SV{Typ: types.Typ[types.Uint8], Sort: sInt, T: fmt.Sprintf("(select %s %s)", f.heapMapIn(c.env, "E$uint8", sInt), et)}
 		}
+		f.nameElt(b.T, i.T)
 		t := fmt.Sprintf("(select %s %s)", f.heapMapIn(c.env, "E$uint8", sInt), locOff(fmt.Sprintf("(s-loc %s)", b.T), i.T))
 		return SV{Typ: types.Typ[types.Uint8], Sort: sInt, T: t}
 	case "le":
@@ -695,6 +705,7 @@ func (f *fnState) specCall(x *spec.Call, c *specCtx) SV {
 		m := f.heapMapIn(c.env, "E$uint8", sInt)
 		var terms, rng []string
 		for j := 0; j < k; j++ {
+			f.nameElt(b.T, fmt.Sprintf("(+ %s %d)", o.T, j))
 			bt := fmt.Sprintf("(select %s %s)", m, locOff(fmt.Sprintf("(s-loc %s)", b.T), fmt.Sprintf("(+ %s %d)", o.T, j)))
 			rng = append(rng, fmt.Sprintf("(<= 0 %s)", bt), fmt.Sprintf("(< %s 256)", bt))
 			if j == 0 {
@@ -720,6 +731,7 @@ func (f *fnState) specCall(x *spec.Call, c *specCtx) SV {
 		for j := 0; j < k; j++ {
 			var bt string
 			if x.Fn == "leval" {
+				f.nameElt(b.T, fmt.Sprintf("(+ %s %d)", o.T, j))
 				bt = fmt.Sprintf("(select %s %s)", f.heapMapIn(c.env, "E$uint8", sInt), locOff(fmt.Sprintf("(s-loc %s)", b.T), fmt.Sprintf("(+ %s %d)", o.T, j)))
 				f.typeFacts(SV{Typ: types.Typ[types.Uint8], Sort: sInt, T: bt})
 			} else {
